@@ -78,6 +78,8 @@ type Worker struct {
 	pcTerms   []*Term
 	fresh     int
 	curHarn   *harnessRun
+	cborBlobs map[*value]*cborRec
+	range256  int
 
 	intrinsicHits map[string]int
 	funcsSeen     map[*ssa.Function]int
@@ -373,6 +375,7 @@ func (w *Worker) resetPath(prefix []uint64) {
 	w.observed = nil
 	w.pcTerms = w.pcTerms[:0]
 	w.fresh = 0
+	w.cborBlobs = nil
 }
 
 func (w *Worker) runPath(hr *harnessRun, prefix []uint64) {
@@ -654,8 +657,12 @@ func (w *Worker) doAssert(c value, label string, fr *frame) {
 			w.dumpQuery(label, nc)
 		}
 		w.sol.Pop()
-		// continue under the assertion
-		w.assume(c)
+		// continue under the assertion (no feasibility query needed after unsat)
+		if r == Unsat {
+			w.assertPC(c)
+		} else {
+			w.assume(c)
+		}
 	case poison:
 		unsupported("assert on poison value")
 	}
